@@ -138,6 +138,8 @@ def model_fold_as_real(f):
         return ("lit", KINDNAME[kind], f[2])
     if f[0] == "crash":
         return ("crash", "sigfpe")
+    if f[0] == "residual-noemit":
+        return ("crash", "emit")        # the reduced tree still has a node without opcode
     return (f[0],)
 
 
@@ -204,7 +206,7 @@ def eval_expr_cases(cases, T, workdir, tag, legs=("var", "lit", "dump"), jobs=16
     return out
 
 
-def root_key(tree, kinds=None):
+def root_key(tree, promoted=False):
     """'<op>:<kind of left>,<kind of right>' of the root operator, kinds from the leaves'
     static kinds when the operands are value trees"""
     def kind_of(t):
@@ -227,7 +229,11 @@ def root_key(tree, kinds=None):
     while t[0] == "P":
         t = t[1]
     if t[0] == "B":
-        return "%s:%s,%s" % (t[1], kind_of(t[2]), kind_of(t[3]))
+        a, b = kind_of(t[2]), kind_of(t[3])
+        order = ["int", "long", "float", "double"]
+        if promoted and a in order and b in order:
+            a = b = order[max(order.index(a), order.index(b))]
+        return "%s:%s,%s" % (t[1], a, b)
     if t[0] == "U":
         return "%s:%s" % (t[1], kind_of(t[2]))
     if t[0] == "C":
